@@ -222,3 +222,30 @@ def dominators(fn):
                 dom[b] = new
                 changed = True
     return dom
+
+
+def decl_of(fn, ref):
+    """the declaration node a reference to a local denotes: the nearest
+    preceding declaration of that name in an enclosing scope"""
+    name = ref['name']
+    decls = [d for d in fn.all_nodes() if d['k'] == 'decl' and d.get('name') == name]
+    if not decls:
+        return None
+    if len(decls) == 1:
+        return decls[0]
+    anc = [a['i'] for a in fn.ancestors(ref)]
+    best = None
+    for d in decls:
+        if d['i'] > ref['i'] and not fn.is_ancestor(d, ref):
+            continue
+        # scope of d = nearest compound / for ancestor
+        sc = None
+        for a in fn.ancestors(d):
+            if a['k'] in ('compound', 'for', 'fn', 'while', 'do', 'if', 'switch'):
+                sc = a
+                break
+        if sc is None or sc['i'] in anc:
+            depth = anc.index(sc['i']) if sc is not None else len(anc)
+            if best is None or depth < best[0]:
+                best = (depth, d)
+    return best[1] if best else decls[0]
